@@ -171,9 +171,10 @@ def run(ctx):
                 # a few entries short (the last requests cross the limit) or far too small (the limit is crossed while
                 # several workers allocate concurrently)
                 ie = list(c["ienv"]); ie[pos] = max(1, need - rng.choice([1, 2, 3]) if rng.random() < 0.3 else int(need * rng.uniform(0.2, 0.9)))
-                tight.append(dict(c, ienv=ie, trace=0, dumplu=0, id=20000 + len(tight), nprocs=rng.choice([3, 4, 8]),
-                                  perturb=[rng.randint(1, 10 ** 6), 0.6, 300], which=which, need=need))
-        if len(tight) >= (40 if ctx.quick() else 400):
+                # every event is delayed (probability 1): the allocator lock is held long enough for the other workers to queue up
+                tight.append(dict(c, ienv=ie, trace=0, dumplu=0, id=20000 + len(tight), nprocs=rng.choice([4, 8]),
+                                  perturb=[rng.randint(1, 10 ** 6), 1.0, rng.choice([300, 1000])], which=which, need=need))
+        if len(tight) >= (80 if ctx.quick() else 600):
             break
     tres = drv.run_grouped(exe, tight, par=max(1, vf.NCPU // 3), chunk=1)
     bb, nb = drv.check_bumps(adrv, tres)
